@@ -717,7 +717,23 @@ def difference(a, b, tol=TOL):
         if k not in lcd or lcd[k][1] < p:
             lcd[k] = (f, p)
     pa, pb = a._lift(lcd), b._lift(lcd)
-    return poly_close(pa, pb, tol)
+    diffs = poly_close(pa, pb, tol)
+    if diffs and (_has_sqrt_power(pa) or _has_sqrt_power(pb)):
+        # lifting can re-create sqrt(u)**2: normalise and compare again
+        ra, rb = Rat(pa)._sqrt_norm(), Rat(pb)._sqrt_norm()
+        if not (_has_sqrt_power(ra.n) or _has_sqrt_power(rb.n)):
+            return difference(ra, rb, tol)
+    return diffs
+
+
+def _has_sqrt_power(p):
+    for m in p.t:
+        for a, k in m:
+            if k >= 2:
+                ad = ATOMS.get(a)
+                if ad is not None and ad.kind == "sqrt":
+                    return True
+    return False
 
 
 def equal(a, b, tol=TOL):
